@@ -542,7 +542,7 @@ def run(ctx: Any, prog: Program) -> None:
     gp, jp = mod_fns.get('_get_file_parts'), mod_fns.get('_join_file_parts')
     if gp is None or jp is None:
         raise AnalysisError('Z12: _get_file_parts / _join_file_parts not found in vpk.py')
-    for nm12 in ['a.txt', 'dir/a.txt', '.gitignore', 'dir/.hidden', 'noext', 'dir/sub/noext', 'a.b.c', 'dir/sub/a.b.c', 'x y/z.vmt']:
+    for nm12 in ['a.txt', 'dir/a.txt', '.gitignore', 'dir/.hidden', 'noext', 'dir/sub/noext', 'a.b.c', 'dir/sub/a.b.c', 'x y/z.vmt', '.cache/index.dat', 'dir/.git/pack.idx', './plain/a.txt']:
         try:
             me12 = MiniEval({}, mod_fns)
             parts = me12.inline(gp, [nm12], {}, None)
@@ -553,6 +553,42 @@ def run(ctx: Any, prog: Program) -> None:
             continue
         ctx.check('C13.Z12', again == parts, vpk, jp, f'{nm12!r} is stored as {parts!r} and listed as {joined!r}, which splits into {again!r}: the archive lists a name that does not lead back to the entry '
                   '(`vpk[name]` / `name in vpk` fail for a name it has just handed out)', func='_join_file_parts', text=f'round trip of {nm12!r}')
+        # ... and the split keeps the name: a name in normal form (no leading `./`, no doubled or trailing slash) is listed as it was given.
+        # Normalisation that eats more than that (every leading `.` and `/`) files `.cache/x` under `cache/x` - a different, possibly existing, name
+        want12 = nm12[2:] if nm12.startswith('./') else nm12
+        ctx.check('C13.Z12', joined == want12, vpk, gp, f'{nm12!r} is split into {parts!r}, i.e. stored and listed as {joined!r} instead of {want12!r}: the name the archive keeps is not the name it was given '
+                  '(two different names can collapse into one entry)', func='_get_file_parts', text=f'{nm12!r} keeps its name')
+
+    # ---- Z15: file data in a numbered archive is read at the offset recorded for it ---------------------------------------------------------
+    # Overwrites and removals leave dead blocks in the numbered archives and new data is appended, so the live blocks are neither contiguous
+    # nor in directory order: a read of `<entry>.arch_len` bytes is right only directly after `seek(<entry>.offset)` on the same file object.
+    ctx.rule('C13.Z15', 'every read of an entry\'s arch_len bytes from an archive file follows a seek to that entry\'s offset', floor=2)
+    n15 = 0
+    for q15, fl15 in vpk.all_funcs().items():
+        for f15 in fl15:
+            for c15 in walk_no_nested(f15):
+                if not (isinstance(c15, ast.Call) and isinstance(c15.func, ast.Attribute) and c15.func.attr == 'read' and isinstance(c15.func.value, ast.Name) and len(c15.args) == 1
+                        and isinstance(c15.args[0], ast.Attribute) and c15.args[0].attr == 'arch_len'):
+                    continue
+                fobj, ent15 = c15.func.value.id, U(c15.args[0].value)
+                # the statement holding the read, and the block it is in
+                st15: ast.AST = c15
+                while not isinstance(st15, ast.stmt):
+                    st15 = vpk.parents[st15]
+                par15 = vpk.parents.get(st15)
+                blk15 = next((getattr(par15, fld) for fld in ('body', 'orelse', 'finalbody') if isinstance(getattr(par15, fld, None), list) and st15 in getattr(par15, fld)), None)
+                n15 += 1
+                ok15 = False
+                if blk15 is not None:
+                    for prev in reversed(blk15[:blk15.index(st15)]):
+                        calls_ = [x for x in ast.walk(prev) if isinstance(x, ast.Call) and isinstance(x.func, ast.Attribute) and dotted(x.func.value) == fobj]
+                        if not calls_:
+                            continue
+                        ok15 = len(calls_) == 1 and calls_[0].func.attr == 'seek' and len(calls_[0].args) == 1 and U(calls_[0].args[0]) == f'{ent15}.offset'
+                        break
+                ctx.check('C13.Z15', ok15, vpk, c15, f'{q15} reads `{U(c15)}` without first seeking `{fobj}` to `{ent15}.offset`: it takes whatever bytes the file position happens to be at - after an overwrite or a removal the '
+                          'blocks of a numbered archive are neither contiguous nor in order, so these are another file\'s (or dead) bytes', func=q15, text=f'{q15}: `{U(c15)}` after seek({ent15}.offset)')
+    ctx.shape('C13.Z15', n15 >= 2, vpk, vpk.tree, f'{n15} reads of arch_len bytes found (FileInfo.read and FileInfo.verify confirmed by hand)', text='archive reads')
 
     # ---- Z11: nothing is read back from the directory file after write_dirfile has truncated it ------------------------------------------
     ctx.rule('C13.Z11', 'write_dirfile: what is used after the directory file was opened for writing is already in memory (no property that reads the file lazily)', floor=1)
@@ -641,6 +677,8 @@ def run(ctx: Any, prog: Program) -> None:
         ctx.shape('C13.Z6', False, vpk, w, 'preload slice bound not recognised', func='FileInfo.write', text='preload bounded to 16 bits')
 
 MUTANTS = [
+    {'id': 'verify_reads_without_seek', 'file': 'vpk.py', 'find': "                    data.seek(self.offset)\n                    chk = checksum(", 'replace': "                    chk = checksum(", 'expect': 'C13.Z15'},
+    {'id': 'file_parts_lstrip_dot_slash', 'file': 'vpk.py', 'find': "    path = os.path.normpath(path).replace('\\\\', '/').rstrip('/')\n", 'replace': "    path = os.path.normpath(path).replace('\\\\', '/').lstrip('./').rstrip('/')\n", 'expect': 'C13.Z12'},
     {'id': 'new_file_lowercases_extension', 'file': 'vpk.py', 'find': "        path, name, ext = _get_file_parts(filename, root)\n", 'replace': "        path, name, ext = _get_file_parts(filename, root)\n        ext = ext.lower()\n", 'expect': 'C13.Z4'},
     {'id': 'vpk_class_level_started_set', 'file': 'vpk.py', 'find': "    _fileinfo: dict[str, dict[str, dict[str, FileInfo]]]\n", 'replace': "    _fileinfo: dict[str, dict[str, dict[str, FileInfo]]]\n    _started_archives: set = set()\n", 'extra': [{'file': 'vpk.py', 'find': "        self._fileinfo.clear()\n        self.footer_data = b''", 'replace': "        self._fileinfo.clear()\n        self._started_archives.clear()\n        self.footer_data = b''"}], 'expect': 'C13.Z14'},
     {'id': 'dirfile_filename_encoded_by_hand', 'file': 'vpk.py', 'find': "                        _write_nullstring(file, filename)\n", 'replace': "                        file.write(filename.encode('ascii', 'surrogateescape') + b'\\x00')\n", 'expect': 'C13.Z2'},
